@@ -312,6 +312,32 @@ func brun(args []string) error {
 			return err
 		}
 	}
+	// large messages: payloads above the converter's initial 1 MiB buffers, compressible and not, in lz4 / uncompressed
+	// chunks and unchunked, in both orders (the record buffer and the chunk buffer grow independently)
+	if *n > 0 {
+		conn := rosgen.Rec{Kind: "conn", Conn: 3, Topic: "/big", Fields: []rosgen.HField{{Name: "topic", Value: []byte("/big")}, {Name: "type", Value: []byte("pkg/Big")},
+			{Name: "md5sum", Value: []byte("00")}, {Name: "message_definition", Value: []byte("uint8[] data")}}}
+		zeros := make([]byte, 3<<20)
+		noise := make([]byte, 3<<19)
+		r.Read(noise)
+		mid := make([]byte, 1<<20+4096)
+		r.Read(mid)
+		big := func(p []byte, s uint32) rosgen.Rec { return rosgen.Rec{Kind: "msg", Conn: 3, Secs: s, Nsecs: 7, Payload: p} }
+		variants := [][]rosgen.Rec{
+			{{Kind: "header"}, {Kind: "chunk", Compression: "lz4", Inner: []rosgen.Rec{conn, big(zeros, 1)}}, {Kind: "chunk", Compression: "none", Inner: []rosgen.Rec{big(noise, 2)}}, {Kind: "chunkinfo"}},
+			{{Kind: "header"}, {Kind: "chunk", Compression: "none", Inner: []rosgen.Rec{conn, big(noise, 1)}}, {Kind: "chunk", Compression: "lz4", Inner: []rosgen.Rec{big(zeros, 2), big(mid, 3)}}},
+			{{Kind: "header"}, conn, big(mid, 1), big(zeros, 2), {Kind: "chunk", Compression: "none", Inner: []rosgen.Rec{big(noise, 3)}}, big(noise, 4)},
+			{{Kind: "header"}, {Kind: "chunk", Compression: "lz4", Inner: []rosgen.Rec{conn, big(mid, 1)}}, {Kind: "chunk", Compression: "lz4", Inner: []rosgen.Rec{big(noise, 2)}}, {Kind: "chunk", Compression: "none", Inner: []rosgen.Rec{big(zeros, 3)}}},
+		}
+		for i, v := range variants {
+			cfg := g.Cfg()
+			cfg.SkipMagic = false
+			cfg.Compression = []string{"", "lz4", "zstd", ""}[i]
+			if err := convertBag(fmt.Sprintf("bigbag%d-%d", *seed, i), v, cfg); err != nil {
+				return err
+			}
+		}
+	}
 	for i := 0; i < *n; i++ {
 		cfg := g.Cfg()
 		cfg.SkipMagic = false
